@@ -68,4 +68,12 @@ func ExtendBinaryPrefix(prefix bitstr.Key, n int) []bitstr.Key
   loop 1 invariant $it >= 1 && len(rd) == pow2($it - 1) && len(wr) == 2 * $key && all(i, 0, len(wr), len(wr[i]) == len(prefix) + $it && isAnc(prefix, wr[i])) && all(i, 0, len(rd), len(rd[i]) == len(prefix) + $it - 1 && isAnc(prefix, rd[i]))
   ghost at assign(rd): $it = $it + 1
   ghost at assign(wr[0]): $it = 0
+
+# Only map entries that hold keys are scheduled (slices.SortFunc is assumed to
+# permute its argument: extern "pure package slices").
+func SortPrefixesBySize(prefixes map[bitstr.Key][]mh.Multihash) []PrefixAndKeys
+  props C17
+  modifies nothing
+  ensures [only-entries-of-the-map-with-keys] all(i, 0, len(result), has(prefixes, result[i].Prefix) && result[i].Keys != nil)
+  loop over prefixes invariant all(i, 0, len(out), has(prefixes, out[i].Prefix) && out[i].Keys != nil)
 @*/
